@@ -46,7 +46,7 @@ m = {
     "engines": [
         {"name": "lean4-proof+correspondence", "path": "/verif/lean, /verif/harness, /verif/extract, /verif/check",
          "serves_properties": sorted(claimed),
-         "kind_free_text": "Lean 4 theorems over hand-written executable models (lake build + #print axioms audit), tied to /repo on every run by go/ast-regenerated facts (FactsTie theorems) and by differential/trace correspondence: a Go harness runs the real code in-process, the compiled Lean model driver judges every case against model and specification"}
+         "kind_free_text": "Lean 4 theorems over hand-written executable models (lake build + #print axioms audit), tied to /repo on every run by go/ast-regenerated facts (FactsTie theorems), by a Go-subset-to-Lean translator for the pure leaf functions (extract/trans regenerates GB.Generated.Trans, Cxx_trans_* theorems prove it equal to the hand models) and by differential/trace correspondence: a Go harness runs the real code in-process, the compiled Lean model driver judges every case against model and specification"}
     ],
     "checks": checks,
     "not_applicable": na,
